@@ -327,6 +327,10 @@ def rule_X3(ctx: Ctx) -> None:
         ok, shown = False, f"raises {e.exc_name}"
     except Unknown as e:
         ok, shown = None, f"undecided: {e}"[:120]
+    src_calls = [X.U(c_.func) for c_ in X.calls(ag.node) if isinstance(c_.func, ast.Attribute) and X.U(c_.func.value) == ag.params()[0] and c_.func.attr.startswith(("_as_pixels", "as_pixels"))]
+    if src_calls != ["self._as_pixels_bw"] and src_calls:
+        ctx.violation(ag, {"grid_taken_from": src_calls}, "the character grid is drawn from the black/white image self._as_pixels_bw() (walls and passages only)",
+                      "the base drawing is taken from the coloured picture: endpoint / path pixels are neither wall nor open")
     ctx.judge(ag, ok, {"black_white_pattern": bw, "characters": shown}, "the character grid is WALL where the black/white image is False and OPEN where it is True")
     # from_ascii
     fa = ctx.index.func(f"{LM}.LatticeMaze.from_ascii")
